@@ -934,13 +934,24 @@ func (e *escaper) escapeTree(c context, node parse.Node, name string, line int) 
 			err:   errorf(ErrNoSuchTemplate, node, line, "no such template %q", name),
 		}, dname
 	}
+	// Context-specific copies are made from the tree as it was parsed: once a commit
+	// has rewritten t.Tree for one context (sanitizers added to its actions, "<"
+	// rewritten in its text, comments removed), a copy of it would be rewritten for
+	// another context on top of that.
+	if e.ns.pristine == nil {
+		e.ns.pristine = map[string]*parse.Tree{}
+	}
+	if e.ns.pristine[name] == nil {
+		// The first analysis that reaches the template: no commit has touched it yet.
+		e.ns.pristine[name] = t.Tree.Copy()
+	}
 	if dname != name {
 		// Use any template derived during an earlier call to escapeTemplate
 		// with different top level templates, or clone if necessary.
 		dt := e.template(dname)
 		if dt == nil {
 			dt = template.New(dname)
-			dt.Tree = t.Tree.Copy()
+			dt.Tree = e.ns.pristine[name].Copy()
 			dt.Tree.Name = dname
 			e.derived[dname] = dt
 		}
